@@ -1016,7 +1016,14 @@ func (self *Node) SetMany(pathes []PathNode, opts *Options) (err error) {
 		ps.a = ps.a[:len(pathes)]
 	}
 	copy(ps.a, pathes)
-	ps.b = pathes
+	// NOTICE: the new values are given field headers and are reordered below: that happens on a copy, the caller's
+	// slice stays as it is (it may be applied to another value, or to this one again)
+	if cap(ps.b) < len(pathes) {
+		ps.b = make([]PathNode, len(pathes))
+	} else {
+		ps.b = ps.b[:len(pathes)]
+	}
+	copy(ps.b, pathes)
 
 	// get original values
 	if err = self.getMany(ps.a, true, opts); err != nil {
@@ -1043,7 +1050,6 @@ func (self *Node) SetMany(pathes []PathNode, opts *Options) (err error) {
 
 	err = self.replaceMany(ps)
 ret:
-	ps.b = nil
 	pnsPool.Put(ps)
 	return
 }
